@@ -66,6 +66,15 @@ Theorem C11_transferred_present_refuted :
 Proof. exact transferred_present_refuted. Qed.
 Print Assumptions C11_transferred_present_refuted.
 
+(* non-atomic uploads: an upload that fails after truncated bytes were written under the final
+   name (event [Partial o b]) is reported failed and never as transferred; together with
+   C11_transferred_present (bytes equal to the source's) a truncated object is never "transferred" *)
+Theorem C11_partial_failed : forall i st tr fl o b,
+  wf11 i -> o_status (transfer i) = Some st -> o_outcome (transfer i) = TOk tr fl ->
+  no_dir_missing i st -> In (Partial o b) (o_events (transfer i)) -> In o fl /\ ~ In o tr.
+Proof. exact partial_failed. Qed.
+Print Assumptions C11_partial_failed.
+
 (* every requested object absent afterwards is reported failed, or is missing on both sides *)
 Theorem C11_absent_reported : forall i st tr fl o,
   wf11 i -> o_status (transfer i) = Some st -> o_outcome (transfer i) = TOk tr fl ->
